@@ -327,9 +327,10 @@ def readLinked {α : Type} (p : Bytes → Option (α × Bytes)) (typ B : Nat) (f
 
 /-! ### file header -/
 
-/-- "#PARSEC BINARY PROFILE " -/
+/-- PARSEC_PROFILING_MAGICK: "#PARSEC BINARY PROFILE " followed by a form feed (24 characters;
+    `open_files` compares exactly these with `strncmp(…, 24)`). -/
 def magick : Bytes :=
-  [35, 80, 65, 82, 83, 69, 67, 32, 66, 73, 78, 65, 82, 89, 32, 80, 82, 79, 70, 73, 76, 69, 32]
+  [35, 80, 65, 82, 83, 69, 67, 32, 66, 73, 78, 65, 82, 89, 32, 80, 82, 79, 70, 73, 76, 69, 32, 12]
 
 def byteOrder : Nat := 0x0123456789ABCDEF
 
@@ -345,7 +346,8 @@ structure Header where
   thrOff : Int
   deriving DecidableEq, Repr
 
-/-- `parsec_profiling_binary_file_header_t`, with the alignment padding of the x86-64 ABI. -/
+/-- `parsec_profiling_binary_file_header_t`, with the alignment padding of the x86-64 ABI (the
+    real writer leaves stale bytes in the padding behind the magic string; the reader skips it). -/
 def encHeader (h : Header) : Bytes :=
   le 8 0 ++ (pad 32 magick ++ (le 8 byteOrder ++ (le 4 h.bufSize ++ (fixstr 128 h.hrid ++
   (le 4 h.dictSize ++ (i64 h.dictOff ++ (le 4 h.infoSize ++ (zeros 4 ++ (i64 h.infoOff ++
@@ -392,7 +394,7 @@ def decHeader (f : Bytes) : Option Header :=
   match split 8 r12 with
   | none => none
   | some (tof, _) =>
-    if mg.take 24 = magick ++ [0] ∧ unle bo = byteOrder then
+    if mg.take 24 = magick ∧ unle bo = byteOrder then
       some ⟨unle bs, cstr hr, unle ds, toI64 (unle dof), unle is, toI64 (unle iof), unle rk, unle nt,
             toI64 (unle tof)⟩
     else none
